@@ -44,6 +44,12 @@ def to_nx_S(g):
     return G
 
 
+def canon_S(g):
+    """the S-graph with its edge list in networkx iteration order (see c02_enc.canon): needed where adjacency order matters (n_knn = -1)"""
+    G = to_nx_S(g)
+    return {"nodes": [[n, a] for n, a in g["nodes"]], "edges": [[u, v, {k: E._js(x) for k, x in d.items()}] for u, v, d in G.edges(data=True)]}
+
+
 def is_pair(v):
     return isinstance(v, tuple) and len(v) == 2
 
